@@ -52,6 +52,24 @@ def run_history(ops):
             share = sb._context[-1].output if len(sb._context) > before_ctx else None
             if share != out:
                 fails.append(('execution_share', step, share, out))
+        elif kind == 'run_timeout':
+            # threaded execution that prints and then exceeds the limit: what it wrote is still its output
+            code, out = op[1], op[2]
+            before_ctx = len(sb._context)
+            sb.threaded, sb.allowed_time = True, 0.3
+            try:
+                sb.run(code)
+            finally:
+                sb.threaded = False
+            import threading, time
+            deadline = time.time() + 3
+            while threading.active_count() > 1 and time.time() < deadline:
+                time.sleep(0.01)
+            raw += out
+            lines += lines_view(out)
+            share = sb._context[-1].output if len(sb._context) > before_ctx else None
+            if share != out:
+                fails.append(('execution_share', step, share, out))
         elif kind == 'run_input':
             code, n = op[1], op[2]
             got_inputs = []
@@ -129,6 +147,11 @@ def bounded(arg):
     evaluations = 0
     # exhaustive pairs of programs first (the shortest histories that can show a cross-execution effect)
     hist = [[('run', a[0], a[1]), ('run', b[0], b[1])] for a in PROGRAMS for b in PROGRAMS]
+    slow = [('run_timeout', "print('before')\nwhile True:\n    pass", "before\n"),
+            ('run_timeout', "import sys\nsys.stdout.write('w')\nprint('  x  ')\nwhile True:\n    pass", "w  x  \n"),
+            ('run_timeout', "while True:\n    pass", "")]
+    a, b = ('run', "print('a')", "a\n"), ('run', "print()", "\n")
+    hist += [[t] for t in slow] + [[a, slow[0], b], [slow[1], ('clear_output',), a], [slow[2], a], [slow[0], slow[0]]]
     hist += [gen_history(rnd, rnd.randint(1, 6)) for _ in range(n)]
     for ops in hist:
         evaluations += 1
@@ -144,7 +167,8 @@ def bounded(arg):
             failures.append({'id': what, 'canon': canon, 'detail': 'step %d: got %r want %r' % (f[1], f[2], f[3]),
                              'history': [list(o) for o in ops]})
     return {'name': 'B-io', 'bound': 'all %d ordered pairs of %d printing programs + %d random histories of 1-6 operations '
-            '(run / run with input() / clear_output / set_input / clear_input) on one real Sandbox' % (
+            '(run / run with input() / clear_output / set_input / clear_input) on one real Sandbox + 7 histories with a '
+            'threaded execution that prints and then runs out of time (0.3 s)' % (
                 len(PROGRAMS) ** 2, len(PROGRAMS), n),
             'evaluations': evaluations, 'distinct_nontrivial': len(distinct),
             'rule': 'distinct = sequence of (operation, first argument)', 'samples': samples, 'failures': failures}
